@@ -189,16 +189,21 @@ def run(ctx):
         ctx.build("replay", tuple(c["tags"]))
     # all replays side by side; the sleeping scenarios (6.5 s each) get one process per scenario; the envelope-only
     # traces do not depend on the dispatch tier (no bytes compared): first and last configuration only
+    def lab(c, tag):            # ctx.replay names its result files by label: concurrent replays need distinct labels
+        d = dict(c)
+        d["label"] = "%s [%s]" % (c["label"], tag)
+        return d
     with concurrent.futures.ThreadPoolExecutor(max_workers=core.NCPU) as ex:
-        futs = [ex.submit(ctx.replay, f, K[0], 30) for f in files["tick"]]
-        futs += [ex.submit(ctx.replay, tf, c) for tf in (exact, prngf) for c in K]
-        futs += [ex.submit(ctx.replay, env, c) for c in (K[0], K[3])]
+        futs = [ex.submit(ctx.replay, f, lab(K[0], os.path.basename(f)[4:-7]), 30) for f in files["tick"]]
+        futs += [ex.submit(ctx.replay, exact, c) for c in K]
+        futs += [ex.submit(ctx.replay, prngf, lab(c, "prng")) for c in K]
+        futs += [ex.submit(ctx.replay, env, lab(c, "envelope")) for c in (K[0], K[3])]
         for f in futs:
             f.result()
     ph["replay"] = round(time.time() - t0)
     t0 = time.time()
     ctx.binding_guard(exact, K[0])
-    ctx.binding_guard(prngf, K[0])
+    ctx.binding_guard(prngf, lab(K[0], "prng"))
     # code -> spec
     nrec = 24 if quick else 400
     def rv(c):
